@@ -67,6 +67,7 @@ func init() {
 			ID: "C12",
 			Explanation: "The complete runtime lifecycle automaton is extracted from the state-object pattern (10 state types x 7 calls, read from go/types method sets and the SSA of every overriding method, with set(<field>) resolved through NewRuntime's wiring) and compared cell by cell with the documented automaton; refused calls are proved effect-free (the base methods consist of 'return ErrNotAllowed' only); " +
 				"the current state has a single writer reachable only through locking wrappers; each HTTP handler performs its transition before any other effect and answers 403 InvalidStateTransition without effect when refused; the route table has the documented methods/patterns, request-id routes are wrapped in the id validator (400), restore routes and the credentials router are mounted only in snapshot mode; the park primitive waits in a loop. " +
+				"Added after the blind rounds: refusal-path, restore-guard and reply-sink rules; Runtime.Release always posts the sticky release; no connection deadlines on the long polls. " +
 				"NOT decided: wake-up timing, HTTP status as seen on the wire (net/http, chi are trusted), behaviour over call sequences beyond what follows from the per-cell automaton.",
 			RuleText:    "one obligation per automaton cell, per base method, per wrapper, per handler ordering rule, per route; non-trivial when an SSA function, method-set selection or call site was inspected",
 			Assumptions: append([]string{"chi answers 404/405 for unregistered routes/methods (library behaviour)", "effects hidden behind interface calls other than the flow/park/setState vocabulary are reported as 'call X' effects and therefore flagged, not ignored"}, trusted...),
@@ -358,11 +359,11 @@ func constString(c *report.Ctx, q string) string {
 }
 
 type routeInfo struct {
-	method, pattern string
-	handlerCtor     string // constructor of the innermost handler
-	wrappers        []string
+	method, pattern      string
+	handlerCtor          string // constructor of the innermost handler
+	wrappers             []string
 	guardedByInitCaching bool
-	pos             token.Pos
+	pos                  token.Pos
 }
 
 // routesOf decodes router.<Method>(pattern, handlerExpr.ServeHTTP) calls of fn.
